@@ -98,7 +98,8 @@ Inductive eop :=
 | EBotPlan (key now day len from to dout din : Z) (res : Z)  (* whenWillWeFly with the weights choosing [day] *)
 | ESubmitB (key : Z) (f : flightZ) (debit : bool) (accepted : bool)  (* one journey of submitFlights *)
 | ECheckOutbound (day : Z) (f : flightZ) (from to dist : Z)   (* the flight planTrip built for [day] *)
-| ECheckInbound (outf : flightZ) (len : Z) (inf : flightZ) (din : Z).   (* the return planInbound built; din = distance of the way back *)
+| ECheckInbound (outf : flightZ) (len : Z) (inf : flightZ) (din : Z)    (* the return planInbound built; din = distance of the way back *)
+| EBots (keys : list Z).   (* the traveller-bots of the history in the journey planner's order (Run/RunSim.v); no operation *)
 
 Definition perr_code (e : perr) : Z :=
   match e with
@@ -215,6 +216,7 @@ Definition e_step (s : rstate) (o : eop) : rstate * bool :=
       let dur := fend g - fstart g in
       (s, draw_ok (fstart g - sod) dur &&
           flightZ_eqb inf (flight_to (build_flight (N:=NumF) sod (fstart g - sod) dur (fto o) (ffrom o) (fl din))))
+  | EBots _ => (s, true)
   end.
 
 Fixpoint e_run (s : rstate) (k : nat) (ops : list eop) : list nat :=
